@@ -160,6 +160,21 @@ def install(interp):
         ModuleDict=E("nn.ModuleDict", bases=(models._NN_MODULE,)),
         ModuleList=E("nn.ModuleList", bases=(models._NN_MODULE,)),
     )
+    f_gammaincc = z3.Function("gammaincc", z3.RealSort(), z3.RealSort(), z3.RealSort())
+
+    def sp_xlogy(x, y):
+        x, y = _t(x), _t(y)
+        return tz.where(x == 0, _t(0.0), x * y.log())
+
+    def sp_gammaincc(a, x):
+        a, x = _t(a).float(), _t(x).float()
+        return a._binop(x, lambda p, q: f_gammaincc(p, q), "arith")
+
+    table["special"] = Namespace("torch.special", dict(
+        xlogy=sp_xlogy, gammaincc=sp_gammaincc, erf=lambda x: _t(x).erf(), expm1=lambda x: _t(x).exp() - 1,
+        log1p=lambda x: (_t(x) + 1).log(), gammaln=lambda x: _t(x).lgamma(),
+    ))
+    table["get_default_dtype"] = lambda: tz.DT["float32"]
     nn_ns = Namespace("torch.nn", nn_table)
     f_ns = Namespace("torch.nn.functional", {})
     nn_table["functional"] = f_ns
